@@ -119,8 +119,8 @@ META = {
         "the RNG state is not part of a checkpoint; the 'same sequence of parameter states' clause is decided for deterministic collaborators only",
         "parameters have at least one element or a zero only in the trailing dimension (JSON nested lists cannot carry shape (0,3); observed and reported by C17.codec.tensor, not counted)",
         "update_parameters is specified for parameter dicts that are not nested inside another parameter dict (inline full_like/zeros_like definitions are not descended into; reported by C17.codec.update_parameters)",
-        "all floating tensors of a run have the dtype selected by --dtype; a configuration mixing dtypes (e.g. a float32 mass matrix in a float64 run) is outside the domain "
-        "(observed there: MassMatrixAdaptor.load_state_dict restores the variance estimator with the dtype of its mean)",
+        "floating tensors of a run have the dtype selected by --dtype, except that a mass matrix of another dtype is covered (variants diag32); float32 *sampled parameters* in a float64 run are "
+        "outside the domain (observed there: MassMatrixAdaptor restores its sample window in the dtype of the mean - the values are exact and the continued run is identical, only the in-memory dtype differs)",
         "adaptors reference the integrator / mass-matrix objects of the HMCOperator that owns them (by id in the configuration), so state they assign through those references is saved by the operator",
         "MCMCOperator.saved_tensors is scratch state: assigned unconditionally at the top of step() before any read, checkpoints are taken between steps (checked on the AST by C17.guard.transient)",
         "stand-ins: components of composites are vt.stateheap.SpecStateful; save_parameters is replaced by an in-memory capture in C17.counter (file-system behaviour is C18's subject)",
